@@ -51,6 +51,15 @@ def replay_case(arg):
     feats = features(rec)
     times = [treal(g) for g in rec['grid']]
     obs = [np.round(rng.uniform(0.6, 3.0, size=len(g)), 3) for g in rec['grid']]
+    if rec['tie'] and (int(key, 16) // 3) % 2 == 0:
+        # replicate measurements (equal times within an output) with IDENTICAL readings: the observations are a sequence of
+        # (time, value) pairs, not a set -- every pair is scored (LogLik!BagIsDecl)
+        for g, o in zip(rec['grid'], obs):
+            for a in range(len(g)):
+                for b in range(a):
+                    if g[a] == g[b]:
+                        o[a] = o[b]
+        cnt['replicates_with_identical_readings'] = 1
     tag = 'c' + key
 
     def fail(clause, manifestation, detail):
@@ -142,7 +151,7 @@ def replay_case(arg):
                 fail('ExactlyOnce', 'error_model_calls', dict(ctx, output=o + 1, events=[e[0] for e in evs]))
                 continue
             _, par, mo, ob = evs[0][:4]
-            exp_mo = probes.probe_output(o, union_t[np.array(rec['sel'][o]) - 1], theta[:nmech])
+            exp_mo = probes.probe_output(o, union_t[np.array(rec['sel'][o], dtype=int) - 1], theta[:nmech])
             if mo.shape != exp_mo.shape or not np.allclose(mo, exp_mo, rtol=1e-12, atol=0):
                 fail('ExactlyOnce', 'pairing', dict(ctx, output=o + 1, got=mo.tolist(), expected=exp_mo.tolist()))
             if ob.shape != obs[o].shape or not np.array_equal(ob, obs[o]):
@@ -246,6 +255,38 @@ def replay_case(arg):
         except Exception as e:
             fail('Evaluable', type(e).__name__, dict(op='buffer refill', error=repr(e)))
         theta_in[...] = theta
+    # ---- mechanistic predictions of EITHER sign: the Gaussian and the constant-and-multiplicative densities are defined
+    # wherever their standard deviation is positive (sigma_base + sigma_rel * prediction > 0 admits mildly negative
+    # predictions); the bag of terms is the same bag there
+    if not fails and all(k_ in ('G', 'C') for k_ in kinds):
+        th_n = theta.copy()
+        th_n[:nmech] = -2.5 * theta[:nmech]
+        neg = False
+        for o in range(nout):
+            pr = probes.probe_output(o, times[o], th_n[:nmech])
+            if np.min(pr) < 0:
+                neg = True
+                if kinds[o] == 'C':
+                    th_n[slices[o][1]] = float(np.floor(500.0 * th_n[slices[o][0]] / -np.min(pr)) / 1000.0)  # sigma_tot >= sigma_base / 2
+        if neg and np.all(th_n[nmech:] > 0):
+            try:
+                with warnings.catch_warnings():
+                    warnings.simplefilter('error', RuntimeWarning)
+                    vn = ll(th_n.copy())
+                    sn, gn = ll.evaluateS1(th_n.copy())
+                    pn = np.asarray(ll.compute_pointwise_ll(th_n.copy()), dtype=float)
+                cnt['evaluations'] = cnt.get('evaluations', 0) + 3
+                cnt['negative_predictions_inside_the_support'] = 1
+                en = interp.value(ref, th_n)
+                if not np.isfinite(en):
+                    raise AssertionError('harness: reference not finite at a point meant to be inside the support')
+                if not (interp.close(vn, en) and interp.close(sn, en) and interp.close(np.sum(pn), en)):
+                    fail('BagIsDecl', 'value_at_negative_predictions', dict(got=[float(vn), float(sn), float(np.sum(pn))],
+                                                                            expected=en, theta=th_n.tolist()))
+                elif not interp.close(np.asarray(gn, dtype=float), interp.grad(ref, th_n), rtol=1e-8, atol=1e-8):
+                    fail('GradIsDecl', 'gradient_at_negative_predictions', dict(theta=th_n.tolist()))
+            except Exception as e:
+                fail('Evaluable', type(e).__name__, dict(op='negative predictions', error=repr(e)))
     # ---- the same sums with one error-model parameter fixed at the likelihood (each in turn), then released ----------
     if not fails:
         for k_ in range(nmech, rec['nparams']):
